@@ -229,6 +229,13 @@ class B(object):
     def __hash__(self):
         raise NeedsConcrete('symbolic bool hashed')
 
+    # numpy bool scalars have these
+    def all(self, *a, **k):
+        return self
+
+    def any(self, *a, **k):
+        return self
+
 
 def lb(v):
     if isinstance(v, B):
@@ -472,6 +479,14 @@ class R(object):
 
     def __round__(s, n=None):
         raise NeedsConcrete('round() of a symbolic real')
+
+    def clip(s, min=None, max=None):
+        v = s
+        if min is not None:
+            v = ite(v < min, lift(min), v)
+        if max is not None:
+            v = ite(v > max, lift(max), v)
+        return v
 
     # numpy's object loops call these methods for the corresponding ufuncs
     def sqrt(s): return SQRT(s)
